@@ -14,9 +14,9 @@ claimed.update({
  "C11": ("other", "Proved (unbounded): char() returns exactly the byte; Tokenize index safety / progress, no blank or comment token is ever appended, the result ends with an EOF token on success, the string scanner gives up only at the end of the input, CRLF normalisation is exactly ReplaceAll; table lemmas over the real operator list and keyword map (evaluated from the package initialiser): no operator spelling is preceded by one of its prefixes (longest match), every entry has the token type the grammar gives its spelling, the reserved words are exactly the keys of the keyword map; token-shape clauses at every newToken call: a block comment is the text up to its FIRST terminator, a line comment stops at the line break, true/false are whole words, an identifier or reserved word is the text at its position, starts with a letter or underscore and is maximal; identifiers are never reserved words and symbol tokens are what they spell; the parser keeps a number token's decimal value and a string token's bytes. The regular expressions enter through reference semantics selected by bounded equivalence testing against Go's regexp engine (an assumption, see level_note). Rows/columns and the string-literal unquoting (strconv.Unquote) are NOT proved.", "§5 C11"),
  "C12": ("other", "Single-run sufficient conditions only: CRLF normalisation is exact, blanks and comments never reach the token list, a declaration consumes values at most once and parses initial values only when something other than a newline or the end of the file follows (call-site assertion). The two-run theorem (same bytes for every re-layout) is argued in DESIGN.md, not machine-checked; newline tolerance of the import group / switch header is a known gap.", "§5 C12"),
  "C14": ("other", "Single-run sufficient conditions: Transpile creates exactly one fresh parser per run before parsing, the transpiler object keeps nothing but the converter, parser.New starts with an empty state, and every loop that ranges over a map (all packages except the CLI) passes a conservative map-order-independence analysis (its body only writes the map entry of the current key). The inference to byte-identical output across runs is argued, not machine-checked.", "§5 C14"),
- "C19": ("proof", "Contracts on tsh.go with os/filepath uninterpreted and logged: parseOptions returns only with non-empty in/out/converters (every other exit is a panic = non-zero status); main performs exactly one Transpile and one os.WriteFile per requested target, the write follows a successful Transpile of the same target, a failed write or transpile panics before anything else is written for that target, the bytes are the library's result and the file name is Base(in) without Ext(in) plus the target's extension. Two genuine defects were repaired (singleton converters, ignored write error).", "§5 C19"),
+ "C19": ("proof", "Contracts on tsh.go with os/filepath uninterpreted and logged: parseOptions returns only with non-empty in/out/converters (every other exit is a panic = non-zero status); main performs exactly one Transpile and one os.WriteFile per requested target, the write follows a successful Transpile of the same target, a failed write or transpile panics before anything else is written for that target, the bytes are the library's result and the file name is Base(in) without Ext(in) plus the target's extension; parseOptions: every switch at an odd argument position is a known one, one converter per -t switch in the order given, each from its own factory call (a target named twice gets two fresh converters). Two genuine defects were repaired (singleton converters, ignored write error).", "§5 C19"),
  "C13": ("proof", "Zero-annotation safety sweep over every function of lexer, parser, transpiler, both converters and tsh.go: each index/slice bound, nil map write, nil dereference, single-value type assertion, division and reachable panic is a named obligation; those discharged on the unchanged tree (the ledger, about 1500 of 1550; exact numbers in the evidence file) are what is claimed, using receiver invariants (parser index non-negative and call-graph map present, transpiler has a converter) and a type invariant of the parser context (maps present, inside a scope) that are themselves proved at every call; the remaining ones need AST well-formedness facts (children of nodes are non-nil, identifiers are non-empty) that are not stated and are reported as undecided, never as proved.", "§5 C13"),
- "C06": ("proof", "'accepted implies well-typed' proved by structural induction over the parser: a recursive typing predicate specTyped (Go rules for the shared syntax, README signatures for builtins) is the postcondition of every expression-parsing function (precedence chain, binary/logical/comparison/unary, primary expressions, subscripts, builtins, calls); call arguments and slice literal elements by quantified postconditions (arity and per-position parameter types); operator tables of both converters are proved equal to the same spec tables (error iff not allowed), which is the target-independence half.", "§5 C06"),
+ "C06": ("proof", "'accepted implies well-typed' proved by structural induction over the parser: a recursive typing predicate specTyped (Go rules for the shared syntax, README signatures for builtins) is the postcondition of every expression-parsing function (precedence chain, binary/logical/comparison/unary, primary expressions, subscripts, builtins, calls); call arguments and slice literal elements by quantified postconditions (arity and per-position parameter types); operator tables of both converters are proved equal to the same spec tables (error iff not allowed), which is the target-independence half. Statement level: a declaration's values have the types of its variables, an assignment's values the types of the assigned variables, ++/-- only counts integers, every if/else-if/for/switch condition is boolean, a slice element assignment takes the element type, builtin arguments are values.", "§5 C06"),
  "C07": ("proof", "Scope placement checks as postconditions (break/continue/return only inside the right construct via a recursive scope-stack predicate, function definitions only at top level, a second function of the same name rejected). The frame part is a type-wide postcondition on every parser method: the three maps of the caller's context (variables, functions, imports) are left exactly as they were (mapsKept over the map heap), so definitions made inside a block never escape it; addVariables registers every name with last-one-wins.", "§5 C07"),
  "C09": ("proof", "Linking obligations on the parser: alias lookups find nothing for an alias that was never imported and addImport binds exactly the alias; imported top-level statements are never dropped by the duplicate-suppression loop (counting invariant); the merge of an imported file's call graph keeps every imported edge (nested loop invariants over the map heap, for any number of callers and callees); getUsedFuncs returns a set closed under callees-of-callees (event-log induction over the recursive calls) and leaves the call graph untouched. Prefix naming (7-hex-digit content hash) and clean-up of unreachable definitions in cleanProgram are not under contract.", "§5 C09"),
  "C04": ("proof", "Order and multiplicity of evaluation proved on the transpiler: every evaluate* function has ghost event-log postconditions (calls/arg/res/seq) stating that each operand is passed to evaluateExpression exactly once, in source order, with its value used, before the converter call that consumes it; all if/else-if conditions before IfStart; for: init, ForStart, guarded increment, condition, ForCondition, body, ForEnd. Loops are handled with invariants over the log, for any number of operands/branches.", "§5 C04"),
@@ -29,8 +29,8 @@ notes = {
  "C12": "Relational property: only the listed single-run facts are machine-checked (including the comment token shapes shared with C11). Three layout defects were repaired without a clause (blank line after switch {, after import ( and between grouped imports).",
  "C14": "Added: the prefix of an imported file is a digest fed with exactly the bytes read from that file (one Write of the ReadFile result before Sum), so it does not depend on where the file lies. The map-order analysis is syntactic (go/ssa), not SMT; process-level nondeterminism other than map iteration (none exists in the code: no goroutines, no time, no random) is excluded by the outside-subset check.",
  "C19": "Trusted: os.Stat/WriteFile, filepath.Base/Ext/Join uninterpreted with the assumed fact that Ext(p) is a suffix of Base(p); a panic is the non-zero exit (Go runtime fact). 'never modifies its input' (output path differs from input path) is not proved.",
- "C13": "Termination (import cycles, parser recursion) is not proved: no decreases clauses yet. Mathematical integers (A1); stack depth and memory exhaustion not modelled. Undecided obligations are listed in the evidence.",
- "C06": "Statement-level typing (definitions/assignments/returns/conditions) is not yet under contract; ordering comparison of strings, the argument type of panic and print are unspecified and not demanded. Library models: strconv.Atoi/ParseBool uninterpreted.",
+ "C13": "Termination is not proved (no decreases clauses); the one known non-termination, import cycles, was repaired and the repair is under a call-site clause (no file is parsed again while it is being parsed). Mathematical integers (A1); stack depth and memory exhaustion not modelled. Undecided obligations are listed in the evidence.",
+ "C06": "Not under contract: the types of returned values below the top level of a function body (a genuine defect, F-06b: return \"x\" nested in an int function is accepted; a repair was withdrawn because the test suite returns nil for a slice in a nested return), compound assignments; ordering comparison of strings, the argument type of panic and print are unspecified and not demanded. Library models: strconv.Atoi/ParseBool uninterpreted.",
  "C07": "Trusted: maps.Clone / slices.Clone models (fresh reference, same content). Shadowing rules inside one block are only covered as far as the listed clauses go.",
  "C09": "Trusted: os/filepath/sha256 uninterpreted; acyclicity of the call graph (recursion through getUsedFuncs is handled modularly, termination is not proved).",
  "C04": "Trusted: a helper reference (${_hN}) can be expanded any number of times without effect; the parser's AST keeps one node per source operand (parser-side clause pending); govc; solvers.",
